@@ -252,6 +252,11 @@ func (s *sandbox) observe(f func()) string {
 		s.watch()
 	}
 	s.drain()
+	if s.inoOK {
+		count("oracle:snapshot+inotify")
+	} else {
+		count("oracle:snapshot-only(inotify unavailable)")
+	}
 	f()
 	evs := s.drain()
 	after := s.snapshot()
